@@ -45,6 +45,7 @@ import (
 	"bytes"
 	"compress/gzip"
 	"context"
+	stderrors "errors"
 	"fmt"
 	"html"
 	"io"
@@ -56,6 +57,7 @@ import (
 	"sort"
 	"strings"
 	"sync"
+	"syscall"
 	"time"
 
 	"github.com/cloudwego/hertz/internal/bytesconv"
@@ -520,7 +522,9 @@ func (h *fsHandler) compressFileNolock(f *os.File, fileInfo os.FileInfo, filePat
 	zf, err := os.Create(tmpFilePath)
 	if err != nil {
 		f.Close()
-		if !os.IsPermission(err) {
+		// no permission, or no valid name for the compressed copy: the caller serves the
+		// file uncompressed
+		if !os.IsPermission(err) && !stderrors.Is(err, syscall.ENAMETOOLONG) {
 			return nil, fmt.Errorf("cannot create temporary file %q: %s", tmpFilePath, err)
 		}
 		return nil, errNoCreatePermission
@@ -556,7 +560,8 @@ func (h *fsHandler) openFSFile(filePath string, mustCompress bool) (*fsFile, err
 
 	f, err := os.Open(filePath)
 	if err != nil {
-		if mustCompress && os.IsNotExist(err) {
+		// (a name that becomes too long with the suffix cannot exist either)
+		if mustCompress && (os.IsNotExist(err) || stderrors.Is(err, syscall.ENAMETOOLONG)) {
 			return h.compressAndOpenFSFile(filePathOriginal)
 		}
 		return nil, err
